@@ -204,6 +204,19 @@ Base(b) ==
                                TopicDecl(DeclNames[1][2], "publish", <<Message(MessageName(DeclNames[1][2], 1), <<>>)>>),
                                TopicDecl(DeclNames[1][3], "reqres", <<Message(Name(<<"request">>, "upper"), <<>>), Message(Name(<<"reply">>, "upper"), <<>>)>>),
                                TopicDecl(DeclNames[1][4], "upsert", <<Message(MessageName(DeclNames[1][4], 1), <<>>)>>) >>) >>) >>]
+      \* a method and a topic message whose fields already refer to the declared type Apple: an inline type appended to the
+      \* same message and named Apple (field apple object {...}) must not capture those references
+      [] b = "svcref" -> [pkgs |-> << Pkg(PkgNames[1], << File("a", <<>>,
+                            << ObjectDecl(DeclNames[1][1], <<MinField(1)>>),
+                               ServiceDecl(DeclNames[1][2], "/" \o ShortOf(PkgNames[1]) \o "/v1",
+                                  << Method(MethodName(DeclNames[1][2], 1), "POST", <<Lit("things")>>,
+                                            << Plain(FieldNames[1], Ref("object", PkgNames[1], <<DeclNames[1][1].src>>, "", "qual")) >>, TRUE,
+                                            << Plain(FieldNames[1], Ref("object", PkgNames[1], <<DeclNames[1][1].src>>, "", "qual")) >>) >>),
+                               TopicDecl(DeclNames[1][3], "publish",
+                                  << Message(MessageName(DeclNames[1][3], 1),
+                                             << Plain(FieldNames[1], Ref("object", PkgNames[1], <<DeclNames[1][1].src>>, "", "qual")) >>) >>) >>),
+                            \* (a second file keeps this base out of the "wide" bases, where the whole catalogue is explored)
+                            File("b", <<>>, << ObjectDecl(DeclNames[2][1], <<>>) >>) >>) >>]
       \* proto <-> j5s: p.proto of package 1 imports a.j5s.proto and uses its Apple (proto -> j5s); file b of package 1 may refer to
       \* p.proto's Pear / Plum without import (j5s -> proto, same package); package 2 imports "foo/v1/p.proto" by path
       [] b = "proto" -> [pkgs |-> << Pkg(PkgNames[1], << File("a", <<>>, << ObjectDecl(DeclNames[1][1], <<MinField(1)>>) >>),
@@ -428,10 +441,16 @@ FieldChoices(b, c, n) ==
                                        InlineObject(NoName, <<Plain(FieldNames[1], InlineObject(NoName, <<MinField(2)>>))>>)), rich |-> 1,
                            label |-> "name-same-as-parent/nested-sibling-name"]}
                     ELSE {}
+        \* an inline object named like a declared type that a field of the same message already refers to
+        reftype == IF Breadth = "full" /\ c.ctx \in {"request", "response", "topicmsg", "object"}
+                      /\ \E i \in 1..n : LET f == GetNode(b, c.path)[c.list][i] IN f.type.k = "ref" /\ f.type.path = <<DeclNames[1][1].src>>
+                   THEN {[e |-> Plain(Name(DeclNames[1][1].w, "camel"), InlineObject(NoName, <<MinField(2)>>)), rich |-> 1,
+                          label |-> "inline-named-like-referenced-type"]}
+                   ELSE {}
         \* multi-package bundles exist for the reference forms: only references (and minimal fields) are added there when Focused
         refsOnly == Focused /\ Len(b.pkgs) > 1
     IN {[e |-> MinField(n + 1), rich |-> 0, label |-> ""]} \cup refs
-       \cup (IF refsOnly THEN {} ELSE scal \cup inl \cup names \cup selfname \cup selfdeep)
+       \cup (IF refsOnly THEN {} ELSE scal \cup inl \cup names \cup selfname \cup selfdeep \cup reftype)
 
 \* R "Oneof": options are objects, inline or by reference
 OptionChoices(b, c, n) ==
